@@ -62,7 +62,7 @@ func findStmts(body *ast.BlockStmt, from, to string) (*located, error) {
 	}
 	walk = func(list []ast.Stmt, inLoop bool) {
 		for i, s := range list {
-			if strings.HasPrefix(stmtStr(s), from) {
+			if markerMatches(s, from) {
 				found = append(found, &located{list: list, i: i, j: i, inLoop: inLoop})
 			}
 			inner(s, inLoop)
@@ -79,6 +79,14 @@ func findStmts(body *ast.BlockStmt, from, to string) (*located, error) {
 		}
 	}
 	walk(body.List, false)
+	if sel, k, ok := markerOrdinal(from); ok {
+		// structural marker with an ordinal: the k-th match in source order
+		_ = sel
+		if k < 1 || k > len(found) {
+			return nil, errf("marker `%s`: %d matching statements", from, len(found))
+		}
+		found = []*located{found[k-1]}
+	}
 	if len(found) != 1 {
 		return nil, errf("%d statements start with `%s` (exactly one expected)", len(found), from)
 	}
@@ -86,7 +94,7 @@ func findStmts(body *ast.BlockStmt, from, to string) (*located, error) {
 	if to != "" {
 		ok := false
 		for j := l.i; j < len(l.list); j++ {
-			if strings.HasPrefix(stmtStr(l.list[j]), to) {
+			if markerMatches(l.list[j], to) {
 				l.j, ok = j, true
 				break
 			}
@@ -366,6 +374,14 @@ func (x *xl) run() (string, error) {
 		stmts := loc.list[loc.i : loc.j+1]
 		x.inGoLoop = loc.inLoop
 		x.prescan(x.fd.Body, stmts[0].Pos())
+		// variables the table types as structs of this package
+		for name, h := range spec.hints {
+			if strings.HasPrefix(h, "S:") && !strings.ContainsAny(name, ".()[ ") {
+				if _, ok := x.p.structs[strings.TrimPrefix(h, "S:")]; ok && x.lookup(name) == nil {
+					x.scopes[0][name] = &vinfo{coq: sanitize(name), ty: tStruct(strings.TrimPrefix(h, "S:"))}
+				}
+			}
+		}
 		for _, n := range x.assigned(stmts, true) {
 			x.region[n] = true
 		}
@@ -623,6 +639,9 @@ func (x *xl) assemble(name, body string) (string, *emitted) {
 		tag := d[:end] // @@LOOPn@@
 		num := strings.TrimSuffix(strings.TrimPrefix(tag, "@@LOOP"), "@@")
 		d = d[end:]
+		for num2, a := range loopArgs { // calls of inner loops: their arguments are needed here too
+			d = strings.ReplaceAll(d, " @@ARGS"+num2+"@@", prefixSp(a))
+		}
 		var sel []*param
 		for _, p := range all {
 			if p.kind != 0 && wordIn(p.name, d) && !strings.Contains(d, "("+p.name+" : ") {
@@ -647,7 +666,7 @@ func (x *xl) assemble(name, body string) (string, *emitted) {
 		sel = append(tsel, sel...)
 		var bs, as []string
 		for _, p := range sel {
-			bs = append(bs, "("+p.name+" : "+p.ty+")")
+			bs = append(bs, "("+p.name+" : "+strings.ReplaceAll(p.ty, "@@RES@@", x.resultType())+")")
 			as = append(as, p.name)
 		}
 		d = strings.ReplaceAll(d, " @@PARAMS@@", prefixSp(strings.Join(bs, " ")))
@@ -667,7 +686,7 @@ func (x *xl) assemble(name, body string) (string, *emitted) {
 	}
 	b.WriteString("Definition " + name)
 	for _, p := range all {
-		b.WriteString(" (" + p.name + " : " + p.ty + ")")
+		b.WriteString(" (" + p.name + " : " + fill(p.ty) + ")")
 	}
 	b.WriteString(" : " + x.resultType() + " :=\n  " + fill(body) + ".\n")
 	em := &emitted{coq: name, params: all, resTys: x.resTys, wrap: x.wrapPanic && x.mayPanic, simple: len(ops) == 0 && spec.mode != "frag" && spec.writer == "" && len(x.mutFields) == 0}
@@ -735,4 +754,129 @@ func prefixSp(s string) string {
 		return ""
 	}
 	return " " + s
+}
+
+// Markers.  A plain marker is a prefix of the statement's (whitespace-normalised) source text.
+// A marker that starts with '@' is structural and survives renamings of everything it does not
+// name:
+//
+//	@assign:x     a statement that itself assigns or declares x (x := .., x = .., x += .., var x ..,
+//	              x.f = .. written as @assign:x.f); compound statements are matched by their header only
+//	@if:x         an if statement whose condition or init statement mentions the identifier x
+//	@switch:x     a switch whose tag or init mentions x        @range:x   a range over an expression mentioning x
+//	@for:x        a for statement whose condition or init mentions x
+//	@call:f       an expression statement, or a single assignment, whose call is to f (text of the callee)
+//	@return       a return statement
+//
+// "#k" at the end picks the k-th match in source order (otherwise the match must be unique in the
+// function for `from`, and the first match after `from` in the same block for `to`).
+func markerOrdinal(m string) (string, int, bool) {
+	if !strings.HasPrefix(m, "@") {
+		return m, 0, false
+	}
+	if i := strings.LastIndex(m, "#"); i > 0 {
+		k := 0
+		for _, c := range m[i+1:] {
+			if c < '0' || c > '9' {
+				return m, 0, false
+			}
+			k = k*10 + int(c-'0')
+		}
+		return m[:i], k, true
+	}
+	return m, 0, false
+}
+
+func mentions(n ast.Node, name string) bool {
+	if n == nil {
+		return false
+	}
+	found := false
+	ast.Inspect(n, func(m ast.Node) bool {
+		switch t := m.(type) {
+		case *ast.FuncLit:
+			return false
+		case *ast.Ident:
+			if t.Name == name {
+				found = true
+			}
+		case *ast.SelectorExpr:
+			if exprStr(t) == name {
+				found = true
+			}
+		}
+		return !found
+	})
+	return found
+}
+
+func callTo(e ast.Expr, f string) bool {
+	c, ok := e.(*ast.CallExpr)
+	return ok && exprStr(c.Fun) == f
+}
+
+func markerMatches(s ast.Stmt, marker string) bool {
+	if !strings.HasPrefix(marker, "@") {
+		return strings.HasPrefix(stmtStr(s), marker)
+	}
+	m, _, _ := markerOrdinal(marker)
+	kind, arg := m[1:], ""
+	if i := strings.Index(kind, ":"); i >= 0 {
+		kind, arg = kind[:i], kind[i+1:]
+	}
+	if ls, ok := s.(*ast.LabeledStmt); ok {
+		s = ls.Stmt
+	}
+	switch kind {
+	case "assign":
+		switch t := s.(type) {
+		case *ast.AssignStmt:
+			for _, l := range t.Lhs {
+				if exprStr(l) == arg {
+					return true
+				}
+			}
+		case *ast.IncDecStmt:
+			return exprStr(t.X) == arg
+		case *ast.DeclStmt:
+			if gd, ok := t.Decl.(*ast.GenDecl); ok {
+				for _, sp := range gd.Specs {
+					if vs, ok := sp.(*ast.ValueSpec); ok {
+						for _, n := range vs.Names {
+							if n.Name == arg {
+								return true
+							}
+						}
+					}
+				}
+			}
+		}
+	case "if":
+		if t, ok := s.(*ast.IfStmt); ok {
+			return mentions(t.Cond, arg) || (t.Init != nil && mentions(t.Init, arg))
+		}
+	case "switch":
+		if t, ok := s.(*ast.SwitchStmt); ok {
+			return (t.Tag != nil && mentions(t.Tag, arg)) || (t.Init != nil && mentions(t.Init, arg))
+		}
+	case "range":
+		if t, ok := s.(*ast.RangeStmt); ok {
+			return mentions(t.X, arg)
+		}
+	case "for":
+		if t, ok := s.(*ast.ForStmt); ok {
+			return (t.Cond != nil && mentions(t.Cond, arg)) || (t.Init != nil && mentions(t.Init, arg))
+		}
+	case "call":
+		switch t := s.(type) {
+		case *ast.ExprStmt:
+			return callTo(t.X, arg)
+		case *ast.AssignStmt:
+			return len(t.Rhs) == 1 && callTo(t.Rhs[0], arg)
+		}
+	case "return":
+		_, ok := s.(*ast.ReturnStmt)
+		return ok
+	}
+	return false
 }
